@@ -615,7 +615,7 @@ def prog_stream(ctx, elk, model):
     small = [s for s in shapes if len(s[0]) == 2]
     big = [s for s in shapes if len(s[0]) > 2]
     rng.shuffle(big)
-    big = big[:ctx.n(250, 9000)]
+    big = big[:ctx.n(250, 4000)]
     chosen = small + big
     n_invalid = 0
     for i, (shape, tc) in enumerate(chosen):
@@ -625,7 +625,7 @@ def prog_stream(ctx, elk, model):
             n_invalid += 1
             continue
         cases.append(("s%05d" % i, p, "shape:" + "/".join(shape) + (":topcatch" if tc else ""), g.pairs, False))
-    for i in range(ctx.n(250, 6000)):
+    for i in range(ctx.n(250, 3000)):
         g = Gen(rng)
         depth = 2 + rng.below(3) if i % 4 else 3 + rng.below(3)
         p = g.random_program(depth)
